@@ -463,7 +463,76 @@ func execC10Full(a []string) string {
 	return ans
 }
 
+// c10.crowd <handlers> <leave> <messages>: more handlers than the table has slots at first, handler i selecting action
+// i (modulo the number of handlers); the first <leave> of them are removed; then <messages> messages, their actions
+// going round: every handler that is still registered gets the messages of its action, in order.
+func execC10Crowd(a []string) string {
+	log.SetOutput(ioutil.Discard)
+	hn, _ := strconv.Atoi(a[0])
+	leave, _ := strconv.Atoi(a[1])
+	n, _ := strconv.Atoi(a[2])
+	x, y := gonet.Pipe()
+	queues := make([]chan *qnet.Message, hn)
+	ids := make([]int, hn)
+	ep := qnet.EndPointFinalizer(qnet.ConnStream(x), func(e qnet.EndPoint) {
+		for i := range queues {
+			i := i
+			queues[i] = make(chan *qnet.Message, n+8)
+			ids[i] = e.MakeHandler(func(h *qnet.Header) (bool, bool) { return int(h.Action)%hn == i, true }, queues[i], func(error) {})
+		}
+	})
+	defer ep.Close()
+	defer y.Close()
+	for i := 0; i < leave && i < hn; i++ {
+		if ep.RemoveHandler(ids[i]) != nil {
+			return "remove-refused"
+		}
+	}
+	done := make(chan struct{})
+	go func() {
+		defer close(done)
+		for id := 1; id <= n; id++ {
+			m := qnet.NewMessage(qnet.NewHeader(qnet.Event, 1, 1, uint32(id%hn), uint32(id)), c10Payload(uint32(id), 16))
+			if m.Write(y) != nil {
+				return
+			}
+		}
+		// a last message for the last handler: when it is there, everything before it has been dispatched
+		lastMsg := qnet.NewMessage(qnet.NewHeader(qnet.Event, 1, 1, uint32(hn-1), uint32(n+1)), nil)
+		lastMsg.Write(y)
+	}()
+	last := queues[hn-1]
+	var tail []uint32
+	deadline := time.After(5 * time.Second)
+wait:
+	for {
+		select {
+		case m := <-last:
+			tail = append(tail, m.Header.ID)
+			if m.Header.ID == uint32(n+1) {
+				break wait
+			}
+		case <-deadline:
+			return fmt.Sprintf("timeout h%d=[%s]", hn-1, fmtIDs(tail))
+		}
+	}
+	<-done
+	var parts []string
+	for i := leave; i < hn; i++ {
+		var got []uint32
+		if i == hn-1 {
+			got = tail
+		}
+		for len(queues[i]) > 0 {
+			got = append(got, (<-queues[i]).Header.ID)
+		}
+		parts = append(parts, fmt.Sprintf("h%d=[%s]", i, fmtIDs(got)))
+	}
+	return "valid " + strings.Join(parts, " ")
+}
+
 func init() {
+	executors["c10.crowd"] = execC10Crowd
 	executors["c10.full"] = execC10Full
 	executors["c10.run"] = func(a []string) string {
 		if len(a) != 5 {
@@ -486,6 +555,14 @@ func init() {
 var lastC10 c10Result
 
 func runC10(r *Rand, tier string, o *Out) {
+	// a table that has grown beyond its ten slots, the early handlers gone
+	for _, c := range [][3]int{{12, 10, 48}, {11, 10, 30}, {16, 9, 64}, {14, 14, 0}, {10, 10, 0}, {13, 3, 39}} {
+		if c[1] >= c[0] {
+			continue // the last handler is the harness's own marker: it stays
+		}
+		o.Do("P", fmt.Sprintf("c10.crowd %d %d %d", c[0], c[1], c[2]), true)
+		o.Count("crowded-table")
+	}
 	// a handler without room next to handlers with room
 	nf := 6
 	if tier == "thorough" {
